@@ -32,7 +32,9 @@ func battery(v *ds.VMValue) string {
 	scripts := []string{"x", "x + 1", "1 + x", "x == x", "x[0]", "x['a']", "x.a", "x.a = 1", "x[0] = 1", "x()", "x(1)", "x.len()",
 		"x.keys()", "x.sum()", "-x", "x ? 1 : 2", "x ?? 3", "`{x}`", "x[0:1]", "toStr(x)", "repr(x)", "toBool(x)", "typeId(x)", "dir(x)",
 		"x.kh()", "[x, x]", "{'k': x}", "x && 1", "x || 1", "y = x; y", "x.compute()", "&z = x; z", "toInt(x)", "abs(x)",
-		"x.a.b", "x[0][0]", "x.a(1)", "x[0]()", "x.items()", "x.values()", "x.pop()", "x.push(1)", "x.shuffle()", "x.rand()", "x * 2"}
+		"x.a.b", "x[0][0]", "x.a(1)", "x[0]()", "x.items()", "x.values()", "x.pop()", "x.push(1)", "x.shuffle()", "x.rand()", "x * 2",
+		// the same value used again: whatever the first use cached inside it must be as harmless as the first use was
+		"x()", "x(1)", "x(1, 2)", "x(5)", "x", "x.compute()", "x(0, 0)"}
 	for _, s := range scripts {
 		src := s
 		try("run:"+s, func() {
